@@ -45,7 +45,8 @@ META = {
         'ended_by_defined_error_code', 'ended_by_undefined_error_code', 'budget_exhausted',
         'ref_fn:body-raises', 'gen_fault_in_def_fn_body',
         'ref_resume:outside-handler:trap-armed', 'ref_fatal:no-resume', 'gen_jump_into_handler_code', 'gen_main_runs_into_handler', 'gen_blanks_around_colons',
-        'gen_for_without_next', 'gen_while_without_wend', 'gen_control_fault']},
+        'gen_for_without_next', 'gen_while_without_wend', 'gen_control_fault',
+        'syntax_table_programs', 'gen_syntax_fault', 'gen_last_statement_of_program_fails']},
     'timeout': {'quick': 600, 'thorough': 7200},
 }
 
@@ -264,7 +265,36 @@ def _table(res):
                     p += 1
                 res.violation('table:trapped-err-value', 'ERR/ERL sweep over ERROR 1..255 differs at offset %d: got %r expected %r'
                               % (p, out[max(0, p - 30):p + 40], exp[max(0, p - 30):p + 40]), {'program': prog})
-    res.bulk(2 * 255, 2 * 255)
+        # statements cut short, at the end of a line / before a colon / as the last line of the program,
+        # untrapped and trapped: the message and ERL name the line the statement stands on
+        nsyn = 0
+        for text, code in G.SYNTAX_FAULTS + G.SYNTAX_FAULTS_STRUCTURAL:
+            msg = M.message(code)
+            forms = [
+                ('end-of-line', ['10 PRINT "a"', '20 %s' % text, '30 PRINT "b"'], b'a\r\n' + msg + b' in 20' + E, b'a\r\nh %d  20 \r\nb\r\n' % code),
+                ('end-of-line-after-statement', ['10 PRINT "a"', '20 PRINT "c":%s' % text, '30 PRINT "b"'],
+                 b'a\r\nc\r\n' + msg + b' in 20' + E, b'a\r\nc\r\nh %d  20 \r\nb\r\n' % code),
+                ('before-colon', ['10 PRINT "a"', '20 %s:PRINT "c"' % text, '30 PRINT "b"'], b'a\r\n' + msg + b' in 20' + E,
+                 b'a\r\nh %d  20 \r\nc\r\nb\r\n' % code),
+                ('last-line-of-program', ['10 PRINT "a"', '20 %s' % text], b'a\r\n' + msg + b' in 20' + E, b'a\r\nh %d  20 \r\n' % code),
+            ]
+            for name, lines, untrapped, trapped in forms:
+                for exp, sprog in ((untrapped, lines), (trapped, ['5 ON ERROR GOTO 100', '15 GOTO 20'] + lines[:-1] +
+                                                       [lines[-1], '40 END', '100 PRINT "h";ERR;ERL:RESUME NEXT'])):
+                    if name == 'last-line-of-program' and exp is trapped:
+                        # the failing statement is the last one of the program text: the handler stands in front of it
+                        sprog = ['5 ON ERROR GOTO 8', '6 GOTO 10', '8 PRINT "h";ERR;ERL:RESUME NEXT'] + lines
+                    try:
+                        out = box.run([l.encode('ascii') for l in sprog], budget=100)
+                    except harness.Internal as e:
+                        res.violation(e.key, str(e), {'program': sprog})
+                        continue
+                    nsyn += 1
+                    if out != exp:
+                        res.violation('syntax-table:%s:%s' % (name, 'trapped-err-erl' if exp is trapped else 'untrapped-message-line'),
+                                      'program %r printed %r, expected %r' % (sprog, out, exp), {'program': sprog})
+        res.count('syntax_table_programs', nsyn)
+    res.bulk(2 * 255 + nsyn, 2 * 255 + nsyn)
     res.sample({'kind': 'table', 'untrapped': '10 PRINT "a" / 20 PRINT "b":ERROR n:PRINT "no" for n=1..255',
                 'trapped': [l.decode() for l in prog]})
 
